@@ -823,6 +823,9 @@ func (e *c17pEnv) badValue(p *partition, kind string, honest []byte, rnd *vRand)
 		return append([]byte{}, honest[:n]...), true
 	case "plain":
 		n := num(1)
+		if n < 0 { // "-1" means "from the end" for flip/trunc only; a plaintext has a length
+			n = 0
+		}
 		b := []byte("C17 never sealed: this is a plaintext value sitting in the log of an encrypted partition. ")
 		for len(b) < n {
 			b = append(b, b...)
